@@ -2,6 +2,7 @@
 `C02 <class> <options…>` ↦ `<parameter count> <rank of the differential claimed by the property>`. -/
 import Driver.Loop
 import NumqiModel.Manifold
+import Driver.C01
 
 namespace Numqi.Driver.C02
 open Numqi.Manifold.Count
@@ -57,6 +58,15 @@ def handle (args : List String) : String :=
       let some ph := flag? ph | return "bad-op"
       if dim < 2 || rank = 0 || rank > dim then return "bad-op"
       return s!"{stiefelParam dim rank isReal m ph} {stiefelRank dim rank isReal m ph}"
+  | ["posreal", bs] => Id.run do
+      -- PositiveReal / OpenInterval: `theta` has `1 if batch_size is None else batch_size` entries, each entry is its own chart of rank 1
+      let some bs := bs.toNat? | return "bad-op"
+      return s!"{scalarParam bs} {scalarParam bs}"
+  | ["interval", bs] => Id.run do
+      let some bs := bs.toNat? | return "bad-op"
+      return s!"{scalarParam bs} {scalarParam bs}"
+  -- the map constants themselves (same model ops as the C01 driver), so that C02 ties the maps whose differentials it talks about
+  | "map" :: rest => Numqi.Driver.C01.handle rest
   | _ => "bad-op"
 
 end Numqi.Driver.C02
